@@ -1,102 +1,105 @@
 /-
-The C02 invariant is preserved by the stanza handlers, the dispatch loops, the event loop and the
-API calls.
+The C02 invariant is preserved by the stanza handlers of the late phase (after `<success/>`).
 -/
-import Strophe.Lemmas.ConnC02Inv
+import Strophe.Lemmas.ConnC02Auth
 
 namespace Strophe.Lemmas.ConnC02
 open Strophe Strophe.Conn
 
-/-! ### `_handle_features` -/
+theorem LateC.same {c c' : Conn} (l : LateC c) (e1 : c'.handlers = c.handlers) (e2 : c'.idHandlers = c.idHandlers)
+    (e3 : c'.openHandler = c.openHandler) (e4 : c'.sm.enabled = c.sm.enabled) : LateC c' := by
+  unfold LateC; rw [e1, e2, e3, e4]; exact l
 
-@[simp] theorem noteOffers_frame (c : Conn) (st : XTree) :
-    same_cfg[c, noteOffers c st] ∧ same_tls[c, noteOffers c st] ∧ same_io[c, noteOffers c st] ∧
-    same_h[c, noteOffers c st] ∧ same_sm[c, noteOffers c st] ∧
-    (noteOffers c st).tlsSupport = c.tlsSupport ∧ (noteOffers c st).saslSupport = c.saslSupport := by
-  simp [noteOffers]
+theorem LateC_addHandler {c : Conn} (l : LateC c) (fn : HFun) (ud : Nat) (ns name type : Option Bytes) (user : Bool) :
+    LateC (addHandler c fn ud ns name type user) := by
+  rcases l with ⟨x, hx, hp⟩ | l | l | l | l
+  · refine .inl ⟨x, ?_, hp⟩
+    rw [addHandler_handlers]; split <;> simp [hx]
+  · exact .inr (.inl (by simpa using l))
+  · exact .inr (.inr (.inl (by simpa using l)))
+  · exact .inr (.inr (.inr (.inl (by simpa using l))))
+  · exact .inr (.inr (.inr (.inr (by simpa using l))))
 
-theorem H_noteOffers {u : Option Nat} {c : Conn} (h : H u c) (st : XTree) : H u (noteOffers c st) :=
-  h.same (by simp [SameH])
+/-- frame of the functions that neither disconnect nor touch the parser or `tlsSupport` -/
+syntax "same_ctx[" term "," term "]" : term
+macro_rules
+  | `(same_ctx[$c, $d]) => `(($d).state = ($c).state ∧ ($d).pst = ($c).pst ∧ ($d).tlsSupport = ($c).tlsSupport ∧
+      ($d).tlsMandatory = ($c).tlsMandatory ∧ ($d).hasTls = ($c).hasTls ∧ ($d).secured = ($c).secured)
 
-/-- the STARTTLS part of `_handle_features` -/
-def hfTls (c0 : Conn) (st : XTree) : Conn :=
-  if !c0.secured then
-    if !c0.tlsDisabled then
-      if (st.childByNameNs (b "starttls") Gen.nsTls).isSome then { c0 with tlsSupport := true } else c0
-    else { c0 with tlsSupport := false }
-  else c0
+/-! ### bind / session / stream management requests -/
 
-/-- the `<mechanisms/>` part -/
-def hfSasl (c1 : Conn) (st : XTree) : Conn :=
-  match st.childByNameNs (b "mechanisms") Gen.nsSasl with
-  | some m => (childTexts m (b "mechanism")).foldl saslChild c1
-  | none => c1
+@[simp] theorem doBind_frame (c : Conn) : same_ctx[c, doBind c] := by simp [doBind]
 
-/-- PLAIN is dropped when anything better is on offer -/
-def hfMask (c2 : Conn) : Conn :=
-  if c2.saslSupport &&& ((Gen.saslMaskPlain ||| Gen.saslMaskAnonymous) ^^^ 0xFFFF) ≠ 0
-    then { c2 with saslSupport := c2.saslSupport &&& (Gen.saslMaskPlain ^^^ 0xFFFF) } else c2
+theorem Inv_doBind {u ut : Option Nat} {c : Conn} (h : Inv u ut c) (l : LateC c) (s : Safe c) :
+    Inv u ut (doBind c) := by
+  unfold doBind
+  exact Inv_sendStanza' (Inv_addTimed (Inv_addIdHandler h _ _ _ rfl (fun _ => ⟨s, l⟩) (by simp)) _ _ _ (by simp))
+    _ _ rfl
 
-theorem handleFeatures_eq (c : Conn) (st : XTree) : handleFeatures c st =
-    authTop (hfMask (hfSasl (hfTls (delTimed (noteOffers c st) .missingFeatures) st) st)) := rfl
+@[simp] theorem sessionStart_frame (c : Conn) : same_ctx[c, sessionStart c] := by simp [sessionStart]
 
-@[simp] theorem hfTls_frame (c : Conn) (st : XTree) :
-    same_cfg[c, hfTls c st] ∧ same_tls[c, hfTls c st] ∧ same_io[c, hfTls c st] ∧
-    same_h[c, hfTls c st] ∧ same_sm[c, hfTls c st] ∧
-    (hfTls c st).g = c.g ∧ (hfTls c st).saslSupport = c.saslSupport := by
-  unfold hfTls; repeat' split
-  all_goals simp
+theorem Inv_sessionStart {u ut : Option Nat} {c : Conn} (h : Inv u ut c) (l : LateC c) (s : Safe c) :
+    Inv u ut (sessionStart c) := by
+  unfold sessionStart
+  exact Inv_sendStanza' (Inv_addTimed (Inv_addIdHandler h _ _ _ rfl (fun _ => ⟨s, l⟩) (by simp)) _ _ _ (by simp))
+    _ _ rfl
 
-theorem hfTls_sup {c : Conn} {st : XTree} (h0 : c.tlsSupport = false) (h : (hfTls c st).tlsSupport = true) :
-    c.secured = false ∧ c.tlsDisabled = false := by
-  unfold hfTls at h
-  repeat' split at h
-  all_goals simp_all
+@[simp] theorem smEnable_frame (c : Conn) : same_ctx[c, smEnable c] := by simp [smEnable]
 
-@[simp] theorem saslChild_frame (c : Conn) (t : Bytes) :
-    same_cfg[c, saslChild c t] ∧ same_tls[c, saslChild c t] ∧ same_io[c, saslChild c t] ∧
-    same_h[c, saslChild c t] ∧ same_sm[c, saslChild c t] ∧
-    (saslChild c t).g = c.g ∧ (saslChild c t).tlsSupport = c.tlsSupport := by
-  unfold saslChild; repeat' split
-  all_goals simp
+theorem Inv_smEnable {u ut : Option Nat} {c : Conn} (h : Inv u ut c) (l : LateC c) (s : Safe c)
+    (hl : c.state ≠ .disconnected) : Inv u ut (smEnable c) := by
+  unfold smEnable
+  have h2 := Inv_sendStanza' (Inv_addHandler h (.sys .sm) 0 (some Gen.nsSm) none none false (by simp [isF])
+    (by simp [isT]) (by simp [isS]) (fun _ => ⟨s, l⟩) (by simp))
+    (.enable (!(addHandler c (.sys .sm) 0 (some Gen.nsSm) none none false).sm.dontRequestResume)) .smStrophe rfl
+  refine Inv_smUpdate h2 _ (fun e he => he) (fun _ => .inr ⟨?_, by simpa using hl⟩)
+  exact (LateC_addHandler l (.sys .sm) 0 (some Gen.nsSm) none none false).same (by simp) (by simp) (by simp) (by simp)
 
-theorem saslChild_fold_frame (b : Conn) (l : List Bytes) (c : Conn)
-    (hb : same_cfg[b, c] ∧ same_tls[b, c] ∧ same_io[b, c] ∧ same_h[b, c] ∧ same_sm[b, c] ∧ c.g = b.g ∧
-      c.tlsSupport = b.tlsSupport) :
-    let d := l.foldl saslChild c
-    same_cfg[b, d] ∧ same_tls[b, d] ∧ same_io[b, d] ∧ same_h[b, d] ∧ same_sm[b, d] ∧ d.g = b.g ∧
-      d.tlsSupport = b.tlsSupport := by
+/-- `_sm_queue_resend`: the retained elements are never part of the authentication -/
+theorem Inv_smQueueResend {u ut : Option Nat} {c : Conn} (h : Inv u ut c) : Inv u ut (smQueueResend c) := by
+  unfold smQueueResend
+  have key : ∀ (l : List (UInt32 × QElem)) (c : Conn), Inv u ut c → (∀ e ∈ l, negItem e.2.item = false) →
+      Inv u ut (l.foldl (fun c e => if c.state = .connected then pushRawWith c e.2.item e.2.owner e.2.snap else c) c) := by
+    intro l
+    induction l with
+    | nil => intro c h _; exact h
+    | cons e l ih =>
+      intro c h hn
+      simp only [List.foldl_cons]
+      refine ih _ ?_ (fun e' he' => hn e' (List.mem_cons_of_mem _ he'))
+      have hne := hn e (List.mem_cons_self ..)
+      split
+      · exact Inv_pushRawWith h _ _ _ (fun hb => by rw [authBearing_neg hb] at hne; cases hne)
+          (fun n => by rw [n] at hne; cases hne)
+      · exact h
+  exact key c.sm.queue _ (Inv_smUpdate h _ (by simp) (fun e => .inl e)) h.el.smN
+
+theorem smQueueResend_fold_frame (b : Conn) (l : List (UInt32 × QElem)) (c : Conn)
+    (hb : same_ctx[b, c] ∧ c.handlers = b.handlers ∧ c.idHandlers = b.idHandlers ∧ c.sm.enabled = b.sm.enabled) :
+    let d := l.foldl (fun c e => if c.state = .connected then pushRawWith c e.2.item e.2.owner e.2.snap else c) c
+    same_ctx[b, d] ∧ d.handlers = b.handlers ∧ d.idHandlers = b.idHandlers ∧ d.sm.enabled = b.sm.enabled := by
   induction l generalizing c with
   | nil => simpa using hb
   | cons e l ih =>
     simp only [List.foldl_cons]
-    exact ih (saslChild c e) (by simpa using hb)
+    refine ih _ ?_
+    split
+    · simpa using hb
+    · exact hb
 
-@[simp] theorem hfSasl_frame (c : Conn) (st : XTree) :
-    same_cfg[c, hfSasl c st] ∧ same_tls[c, hfSasl c st] ∧ same_io[c, hfSasl c st] ∧
-    same_h[c, hfSasl c st] ∧ same_sm[c, hfSasl c st] ∧
-    (hfSasl c st).g = c.g ∧ (hfSasl c st).tlsSupport = c.tlsSupport := by
-  unfold hfSasl; split
-  · exact saslChild_fold_frame c _ c (by simp)
-  · simp
+@[simp] theorem smQueueResend_frame (c : Conn) :
+    same_ctx[c, smQueueResend c] ∧ (smQueueResend c).handlers = c.handlers ∧
+    (smQueueResend c).idHandlers = c.idHandlers ∧ (smQueueResend c).sm.enabled = c.sm.enabled :=
+  smQueueResend_fold_frame c c.sm.queue { c with sm := { c.sm with queue := [] } } (by simp)
 
-@[simp] theorem hfMask_frame (c : Conn) :
-    same_cfg[c, hfMask c] ∧ same_tls[c, hfMask c] ∧ same_io[c, hfMask c] ∧
-    same_h[c, hfMask c] ∧ same_sm[c, hfMask c] ∧
-    (hfMask c).g = c.g ∧ (hfMask c).tlsSupport = c.tlsSupport := by
-  unfold hfMask; split <;> simp
-
-theorem H_handleFeatures {u : Option Nat} {c : Conn} (h : H u c) (hs : c.tlsSupport = false) (st : XTree) :
-    H u (handleFeatures c st) := by
-  rw [handleFeatures_eq]
-  refine H_auth 3 _ (h.same (by simp [SameH])) ?_
-  intro ht
-  simp only [hfMask_frame, hfSasl_frame] at ht
-  have := hfTls_sup (c := delTimed (noteOffers c st) .missingFeatures) (st := st) (by simpa using hs) ht
-  simpa using this
-
-theorem handleFeatures_sup (c : Conn) (st : XTree) : (handleFeatures c st).tlsSupport = false := by
-  rw [handleFeatures_eq]; exact auth_sup 2 _
+/-- in the late phase the offers are no longer used: the ghost may change -/
+theorem Inv.lateMono {u ut : Option Nat} {c c' : Conn} (h : Inv u ut c) (l : LateC c) (m : Mono c c')
+    (io : same_io[c, c']) (ks : c'.saslSupport = c.saslSupport) : Inv u ut c' := by
+  obtain ⟨a, b, d, e, o⟩ := h.ph.e6 l
+  refine h.setMe m io ⟨fun _ => .inr ⟨a.mono m.hs, b.mono m.tm, d.mono m.hs, fun _ => ?_⟩,
+    fun _ => .inl (e.mono m.hs), ?_⟩
+  · unfold OpenPre at *; rw [m.oh]; exact o
+  · have := h.me.k; unfold KMask at *; rw [ks]; exact this
 
 /-! ### `_handle_features_sasl`, `_handle_features_compress` -/
 
@@ -114,84 +117,93 @@ def hfsPrep (c : Conn) (st : XTree) : Conn :=
 
 @[simp] theorem hfsPrep_frame (c : Conn) (st : XTree) :
     same_cfg[c, hfsPrep c st] ∧ same_tls[c, hfsPrep c st] ∧ same_io[c, hfsPrep c st] ∧
-    same_h[c, hfsPrep c st] ∧ same_sm[c, hfsPrep c st] ∧
+    same_h[c, hfsPrep c st] ∧ same_sm[c, hfsPrep c st] ∧ same_p[c, hfsPrep c st] ∧
+    (hfsPrep c st).timed = c.timed.filter (·.fn ≠ .missingFeaturesSasl) ∧
     (hfsPrep c st).tlsSupport = c.tlsSupport ∧ (hfsPrep c st).saslSupport = c.saslSupport := by
   unfold hfsPrep; repeat' split
   all_goals simp
 
+/-- the resumption request of `_handle_features_sasl` -/
+def hfsResume (c3 : Conn) (st : XTree) : Conn :=
+  let c4 := { c3 with sm := { c3.sm with bind := (st.childByNameNs (b "bind") Gen.nsBind).isSome, resume := true } }
+  addHandler (sendStanza c4 (.resume (c4.sm.previd.getD []) c4.sm.handledNr) .smStrophe)
+    (.sys .sm) 0 (some Gen.nsSm) none none false
+
 theorem handleFeaturesSasl_eq (c : Conn) (st : XTree) : handleFeaturesSasl c st =
-    let c3 := hfsPrep c st
-    if !c3.smDisable && c3.sm.support && c3.sm.canResume && c3.sm.previd.isSome && c3.sm.boundJid.isSome then
-      let c4 := { c3 with sm := { c3.sm with bind := (st.childByNameNs (b "bind") Gen.nsBind).isSome, resume := true } }
-      addHandler (sendStanza c4 (.resume (c4.sm.previd.getD []) c4.sm.handledNr) .smStrophe)
-        (.sys .sm) 0 (some Gen.nsSm) none none false
-    else if c3.bindRequired then doBind c3
-    else xmppDisconnect c3 := rfl
+    if !(hfsPrep c st).smDisable && (hfsPrep c st).sm.support && (hfsPrep c st).sm.canResume &&
+        (hfsPrep c st).sm.previd.isSome && (hfsPrep c st).sm.boundJid.isSome then hfsResume (hfsPrep c st) st
+    else if (hfsPrep c st).bindRequired then doBind (hfsPrep c st)
+    else xmppDisconnect (hfsPrep c st) := rfl
 
-theorem H_handleFeaturesSasl {u : Option Nat} {c : Conn} (h : H u c) (s : Safe c) (st : XTree) :
-    H u (handleFeaturesSasl c st) := by
+@[simp] theorem hfsResume_frame (c : Conn) (st : XTree) : same_ctx[c, hfsResume c st] := by simp [hfsResume]
+
+theorem Inv_hfsResume {u ut : Option Nat} {c : Conn} (h : Inv u ut c) (l : LateC c) (s : Safe c)
+    (st : XTree) : Inv u ut (hfsResume c st) := by
+  unfold hfsResume
+  have h4 := Inv_smUpdate h { c.sm with bind := (st.childByNameNs (b "bind") Gen.nsBind).isSome, resume := true }
+    (fun _ he => he) (fun e => .inl e)
+  have h5 := Inv_sendStanza' h4 (.resume (c.sm.previd.getD []) c.sm.handledNr) .smStrophe rfl
+  refine Inv_addHandler h5 _ _ _ _ _ _ (by simp [isF]) (by simp [isT]) (by simp [isS]) (fun _ => ⟨?_, ?_⟩) (by simp)
+  · exact s.same (by simp) (by simp) (by simp) (by simp)
+  · exact l.same (by simp) (by simp) (by simp) (by simp)
+
+attribute [local irreducible] hfsPrep
+
+theorem Mono_filterTimed {c c' : Conn} (p : Timed → Bool) (e1 : c'.handlers = c.handlers)
+    (e2 : c'.idHandlers = c.idHandlers) (e3 : c'.timed = c.timed.filter p) (e4 : c'.sm.queue = c.sm.queue)
+    (e5 : same_cfg[c, c']) (e6 : same_tls[c, c']) (e7 : c'.openHandler = c.openHandler) (e8 : same_p[c, c'])
+    (e9 : c'.sm.enabled = c.sm.enabled) : Mono c c' :=
+  ⟨fun x hx => ⟨x, e1 ▸ hx, rfl, rfl, rfl, rfl⟩, fun x hx => ⟨x, e2 ▸ hx, rfl, rfl⟩,
+    fun t ht => ⟨t, (List.mem_filter.1 (e3 ▸ ht)).1, rfl, rfl, rfl⟩, fun _ he => e4 ▸ he, e5, e6, e7, e8, e9⟩
+
+theorem Inv_handleFeaturesSasl {u ut : Option Nat} {c : Conn} (h : Inv u ut c) (l : LateC c) (s : Safe c)
+    (st : XTree) : Inv u ut (handleFeaturesSasl c st) := by
   rw [handleFeaturesSasl_eq]
-  have h3 : H u (hfsPrep c st) := h.same (by simp [SameH])
+  have h3 : Inv u ut (hfsPrep c st) :=
+    h.lateMono l (Mono_filterTimed (fun x => !decide (x.fn = TFun.missingFeaturesSasl)) (by simp) (by simp)
+      (by simp) (by simp) (by simp) (by simp) (by simp) (by simp) (by simp)) (by simp) (by simp)
+  have l3 : LateC (hfsPrep c st) := l.same (by simp) (by simp) (by simp) (by simp)
   have s3 : Safe (hfsPrep c st) := s.same (by simp) (by simp) (by simp) (by simp)
-  simp only
   split
-  · refine H_addHandler (H_sendStanza (h3.same (by simp [SameH])) _ _ (by simp [Item.authBearing])
-      (by simp [ElemOk])) _ _ _ _ _ _ (by simp [hT]) (fun _ => ?_) (by simp)
-    exact s3.same (by simp) (by simp) (by simp) (by simp)
+  · exact Inv_hfsResume h3 l3 s3 st
   · split
-    · exact H_doBind h3 s3
-    · exact H_xmppDisconnect h3
+    · exact Inv_doBind h3 l3 s3
+    · exact Inv_xmppDisconnect h3
 
-theorem handleFeaturesSasl_sup (c : Conn) (st : XTree) :
-    (handleFeaturesSasl c st).tlsSupport = c.tlsSupport := by
-  rw [handleFeaturesSasl_eq]; simp only; repeat' split
+theorem handleFeaturesSasl_frame (c : Conn) (st : XTree) : same_ctx[c, handleFeaturesSasl c st] := by
+  rw [handleFeaturesSasl_eq]; repeat' split
   all_goals simp
 
 @[simp] theorem compressionOffer_frame (c : Conn) (st : XTree) :
     same_cfg[c, compressionOffer c st] ∧ same_tls[c, compressionOffer c st] ∧ same_io[c, compressionOffer c st] ∧
-    same_h[c, compressionOffer c st] ∧ same_sm[c, compressionOffer c st] ∧
+    same_h[c, compressionOffer c st] ∧ same_sm[c, compressionOffer c st] ∧ same_p[c, compressionOffer c st] ∧
+    same_t[c, compressionOffer c st] ∧ (compressionOffer c st).g = c.g ∧
     (compressionOffer c st).tlsSupport = c.tlsSupport ∧ (compressionOffer c st).saslSupport = c.saslSupport := by
   unfold compressionOffer; repeat' split
   all_goals simp
 
-theorem H_handleFeaturesCompress {u : Option Nat} {c : Conn} (h : H u c) (s : Safe c) (st : XTree) :
-    H u (handleFeaturesCompress c st) := by
+theorem Inv_handleFeaturesCompress {u ut : Option Nat} {c : Conn} (h : Inv u ut c) (l : LateC c) (s : Safe c)
+    (st : XTree) : Inv u ut (handleFeaturesCompress c st) := by
   unfold handleFeaturesCompress
-  have h1 : H u (compressionOffer (delTimed (noteOffers c st) .missingFeatures) st) := h.same (by simp [SameH])
-  have s1 : Safe (compressionOffer (delTimed (noteOffers c st) .missingFeatures) st) :=
+  have h1 : Inv u ut (compressionOffer (delTimed (noteOffers c st) .missingFeaturesSasl) st) :=
+    h.lateMono l (Mono_filterTimed (fun x => !decide (x.fn = TFun.missingFeaturesSasl)) (by simp) (by simp) (by simp) (by simp) (by simp) (by simp) (by simp) (by simp)
+      (by simp)) (by simp) (by simp)
+  have l1 : LateC (compressionOffer (delTimed (noteOffers c st) .missingFeaturesSasl) st) :=
+    l.same (by simp) (by simp) (by simp) (by simp)
+  have s1 : Safe (compressionOffer (delTimed (noteOffers c st) .missingFeaturesSasl) st) :=
     s.same (by simp) (by simp) (by simp) (by simp)
   simp only
   split
-  · exact H_addHandler (H_sendRaw h1 _ _ (by simp [Item.authBearing]) (by simp [ElemOk])) _ _ _ _ _ _
-      (by simp [hT]) (fun _ => s1.same (by simp) (by simp) (by simp) (by simp)) (by simp)
-  · exact H_handleFeaturesSasl h1 s1 st
+  · exact Inv_addHandler (Inv_sendRaw' h1 _ _ rfl) _ _ _ _ _ _ (by simp [isF]) (by simp [isT]) (by simp [isS])
+      (fun _ => ⟨s1.same (by simp) (by simp) (by simp) (by simp), l1.same (by simp) (by simp) (by simp) (by simp)⟩)
+      (by simp)
+  · exact Inv_handleFeaturesSasl h1 l1 s1 st
 
-theorem handleFeaturesCompress_sup (c : Conn) (st : XTree) :
-    (handleFeaturesCompress c st).tlsSupport = c.tlsSupport := by
+theorem handleFeaturesCompress_frame (c : Conn) (st : XTree) : same_ctx[c, handleFeaturesCompress c st] := by
   unfold handleFeaturesCompress; simp only; split
   · simp
-  · rw [handleFeaturesSasl_sup]; simp
-
-/-! ### `_handle_sasl_result` -/
-
-theorem H_handleSaslResult {u : Option Nat} {c : Conn} (h : H u c) (s : Safe c) (hs : c.tlsSupport = false)
-    (st : XTree) : H u (handleSaslResult c st) := by
-  unfold handleSaslResult
-  simp only
-  split
-  · exact H_auth 3 c h (by simp [hs])
-  · split
-    · refine H_connOpenStream (H_prepareReset (h.same (by simp [SameH])) _ (fun _ => ?_))
-      exact s.same rfl rfl rfl rfl
-    · exact H_xmppDisconnect h
-
-theorem handleSaslResult_sup {c : Conn} (hs : c.tlsSupport = false) (st : XTree) :
-    (handleSaslResult c st).tlsSupport = false := by
-  unfold handleSaslResult
-  simp only
-  split
-  · exact auth_sup 2 c
-  · split <;> simp [hs]
+  · have := handleFeaturesSasl_frame (compressionOffer (delTimed (noteOffers c st) .missingFeaturesSasl) st) st
+    simpa using this
 
 /-! ### `_handle_sm` -/
 
@@ -256,86 +268,119 @@ theorem handleSm_eq (c : Conn) (st : XTree) : handleSm c st =
     else if st.name?.getD [] = b "failed" then smFailedBranch c st
     else smOff c := rfl
 
-@[simp] theorem smOff_frame (c : Conn) :
-    same_cfg[c, smOff c] ∧ same_tls[c, smOff c] ∧ same_io[c, smOff c] ∧ same_h[c, smOff c] ∧
-    same_neg[c, smOff c] ∧ (smOff c).sm.queue = c.sm.queue := by
-  simp [smOff]
+theorem Inv_smOff {u ut : Option Nat} {c : Conn} (h : Inv u ut c) : Inv u ut (smOff c) :=
+  Inv_smUpdate h _ (fun _ he => he) (by simp)
+
+@[simp] theorem smOff_frame (c : Conn) : same_ctx[c, smOff c] ∧ (smOff c).handlers = c.handlers ∧
+    (smOff c).idHandlers = c.idHandlers := by simp [smOff]
+
+theorem Inv_smEnabledBranch {u ut : Option Nat} {c : Conn} (h : Inv u ut c) (st : XTree) :
+    Inv u ut (smEnabledBranch c st) := by
+  unfold smEnabledBranch
+  split
+  · exact Inv_smOff h
+  · simp only
+    split
+    · split
+      · exact Inv_smUpdate h _ (fun _ he => he) (by simp)
+      · exact Inv_negotiationSuccess (Inv_smQueueResend (Inv_smUpdate h _ (fun _ he => he) (fun e => .inl e)))
+    · exact Inv_negotiationSuccess (Inv_smQueueResend (Inv_smUpdate h _ (fun _ he => he) (fun e => .inl e)))
+
+theorem Inv_smGhost {u ut : Option Nat} {c : Conn} (h : Inv u ut c) (s' : SmState) (g' : Ghost) (bj : Option Bytes)
+    (hq : ∀ e ∈ s'.queue, e ∈ c.sm.queue)
+    (he : s'.enabled = true → c.sm.enabled = true ∨ (LateC c ∧ c.state ≠ .disconnected))
+    (hg : g'.offeredMechs = c.g.offeredMechs) : Inv u ut { c with sm := s', boundJid := bj, g := g' } :=
+  (Inv_smUpdate h s' hq he).same (by simp [SameAll, hg])
+
+/-- some handler of the late phase is installed (e.g. the one that is running) -/
+def LateH (c : Conn) : Prop :=
+  (∃ h ∈ c.handlers, isLate h.fn = true) ∨ (∃ h ∈ c.idHandlers, isLate h.fn = true)
+
+theorem LateH.late {c : Conn} (l : LateH c) : LateC c := by
+  rcases l with l | l
+  · exact .inl l
+  · exact .inr (.inl l)
+
+theorem LateH.same {c c' : Conn} (l : LateH c) (e1 : c'.handlers = c.handlers) (e2 : c'.idHandlers = c.idHandlers) :
+    LateH c' := by
+  unfold LateH; rw [e1, e2]; exact l
+
+theorem LateH.safe {u : Option Nat} {c : Conn} (l : LateH c) (g : G u c) : Safe c := by
+  rcases g.gated with ⟨n1, n2, _, _⟩ | s
+  · rcases l with ⟨x, hx, hp⟩ | ⟨x, hx, hp⟩
+    · have := n1 x hx; simp [gatedFn, hp] at this
+    · have := n2 x hx; simp [gatedFn, hp] at this
+  · exact s
+
+theorem Inv_smResumedBranch {u ut : Option Nat} {c : Conn} (h : Inv u ut c) (l : LateC c)
+    (hl : c.state ≠ .disconnected) (st : XTree) : Inv u ut (smResumedBranch c st) := by
+  unfold smResumedBranch
+  split
+  · exact Inv_smOff h
+  · split
+    · exact Inv_smOff h
+    · split
+      · exact Inv_smOff h
+      · exact Inv_negotiationSuccess (Inv_smQueueResend (Inv_smGhost h _ _ _ (fun e he => mem_smQueueCleanup he)
+          (fun _ => .inr ⟨l, hl⟩) rfl))
 
 theorem smFailC2_frame (c : Conn) (st cause : XTree) :
     same_cfg[c, smFailC2 c st cause] ∧ same_tls[c, smFailC2 c st cause] ∧ same_io[c, smFailC2 c st cause] ∧
-    same_h[c, smFailC2 c st cause] ∧ same_neg[c, smFailC2 c st cause] ∧
+    same_h[c, smFailC2 c st cause] ∧ same_neg[c, smFailC2 c st cause] ∧ same_p[c, smFailC2 c st cause] ∧
+    same_t[c, smFailC2 c st cause] ∧ (smFailC2 c st cause).sm.enabled = c.sm.enabled ∧
     (∀ e ∈ (smFailC2 c st cause).sm.queue, e ∈ c.sm.queue) := by
   unfold smFailC2; simp only; repeat' split
   all_goals simp
   exact fun a b he => mem_smQueueCleanup he
 
-theorem H_smEnabledBranch {u : Option Nat} {c : Conn} (h : H u c) (s : Safe c) (st : XTree) :
-    H u (smEnabledBranch c st) := by
-  unfold smEnabledBranch
-  split
-  · exact h.same (by simp [SameH])
-  · rename_i he
-    simp only
-    split
-    · split
-      · exact h.same (by simp [SameH])
-      · exact H_negotiationSuccess (H_smQueueResend (h.same (by simp [SameH])) (s.gateC.same rfl rfl rfl rfl)
-          (by simpa using he))
-    · exact H_negotiationSuccess (H_smQueueResend (h.same (by simp [SameH])) (s.gateC.same rfl rfl rfl rfl)
-          (by simpa using he))
+theorem Inv_smFailC2 {u ut : Option Nat} {c : Conn} (h : Inv u ut c) (st cause : XTree) :
+    Inv u ut (smFailC2 c st cause) := by
+  unfold smFailC2; simp only; repeat' split
+  · exact Inv_smUpdate h _ (fun e he => mem_smQueueCleanup he) (fun e => .inl e)
+  · exact h
+  · exact Inv_smUpdate h _ (fun _ he => he) (fun e => .inl e)
+  · exact h
 
-theorem H_smResumedBranch {u : Option Nat} {c : Conn} (h : H u c) (s : Safe c) (st : XTree) :
-    H u (smResumedBranch c st) := by
-  unfold smResumedBranch
-  split
-  · exact h.same (by simp [SameH])
-  · split
-    · exact h.same (by simp [SameH])
-    · split
-      · exact h.same (by simp [SameH])
-      · refine H_negotiationSuccess (H_smQueueResend (h.same ?_) (s.gateC.same rfl rfl rfl rfl) rfl)
-        simp only [SameH, true_and, and_true]
-        exact fun e he => mem_smQueueCleanup he
-
-theorem H_smFailedBranch {u : Option Nat} {c : Conn} (h : H u c) (s : Safe c) (st : XTree) :
-    H u (smFailedBranch c st) := by
+theorem Inv_smFailedBranch {u ut : Option Nat} {c : Conn} (h : Inv u ut c) (l : LateH c) (st : XTree) :
+    Inv u ut (smFailedBranch c st) := by
   unfold smFailedBranch
   split
-  · exact h.same (by simp [SameH])
+  · exact Inv_smOff h
   · rename_i cause _
     have fr := smFailC2_frame (smOff c) st cause
-    simp only [smOff_frame] at fr
-    obtain ⟨⟨f1, f2, f3, f4, f5⟩, ⟨g1, g2, g3, g4⟩, ⟨i1, i2⟩, ⟨j1, j2, j3⟩, ⟨k1, k2, k3⟩, q⟩ := fr
-    have h3 : H u { smFailC2 (smOff c) st cause with sm := resetSmState (smFailC2 (smOff c) st cause).sm } :=
-      h.same ⟨g1, f1, g2, g3, i2, i1, by simpa using q, j1, j2, j3⟩
-    have s3 : Safe { smFailC2 (smOff c) st cause with sm := resetSmState (smFailC2 (smOff c) st cause).sm } :=
-      s.same g1 f1 g2 g3
+    have h2 := Inv_smFailC2 (Inv_smOff h) st cause
+    have h3 : Inv u ut { smFailC2 (smOff c) st cause with sm := resetSmState (smFailC2 (smOff c) st cause).sm } :=
+      Inv_smUpdate h2 _ (by simp) (fun e => .inl (by simpa using e))
+    have l3 : LateH { smFailC2 (smOff c) st cause with sm := resetSmState (smFailC2 (smOff c) st cause).sm } :=
+      l.same (by simp [fr.2.2.2.1.1]) (by simp [fr.2.2.2.1.2.1])
+    have s3 := l3.safe h3.g
     simp only
     split
-    · exact H_doBind h3 s3
+    · exact Inv_doBind h3 l3.late s3
     · split
-      · exact H_xmppDisconnect h3
+      · exact Inv_xmppDisconnect h3
       · split
-        · exact H_negotiationSuccess h3
+        · exact Inv_negotiationSuccess h3
         · exact h3
 
-theorem H_handleSm {u : Option Nat} {c : Conn} (h : H u c) (s : Safe c) (st : XTree) :
-    H u (handleSm c st) := by
+theorem Inv_handleSm {u ut : Option Nat} {c : Conn} (h : Inv u ut c) (l : LateH c)
+    (hl : c.state ≠ .disconnected) (st : XTree) : Inv u ut (handleSm c st) := by
   rw [handleSm_eq]
   split
-  · exact H_smEnabledBranch h s st
+  · exact Inv_smEnabledBranch h st
   · split
-    · exact H_smResumedBranch h s st
+    · exact Inv_smResumedBranch h l.late hl st
     · split
-      · exact H_smFailedBranch h s st
-      · exact h.same (by simp [SameH])
+      · exact Inv_smFailedBranch h l st
+      · exact Inv_smOff h
 
-theorem handleSm_sup (c : Conn) (st : XTree) : (handleSm c st).tlsSupport = c.tlsSupport := by
+theorem handleSm_frame (c : Conn) (st : XTree) : same_ctx[c, handleSm c st] := by
   rw [handleSm_eq]
   unfold smEnabledBranch smResumedBranch smFailedBranch
   simp only
   repeat' split
-  all_goals simp [(smFailC2_frame _ _ _).2.2.2.2.1]
+  all_goals simp [(smFailC2_frame _ _ _).1, (smFailC2_frame _ _ _).2.1, (smFailC2_frame _ _ _).2.2.2.2.1,
+    (smFailC2_frame _ _ _).2.2.2.2.2.1]
 
 /-! ### bind, session, legacy, error -/
 
@@ -351,91 +396,100 @@ def bindC1 (c0 : Conn) (st : XTree) : Conn :=
   | some bnd => if (bnd.childByName (b "jid")).isSome then { c0 with boundJid := bj } else c0
   | none => c0
 
-@[simp] theorem bindC1_frame (c : Conn) (st : XTree) :
-    same_cfg[c, bindC1 c st] ∧ same_tls[c, bindC1 c st] ∧ same_io[c, bindC1 c st] ∧
-    same_h[c, bindC1 c st] ∧ same_sm[c, bindC1 c st] ∧ same_neg[c, bindC1 c st] := by
+theorem bindC1_same (c : Conn) (st : XTree) : SameAll c (bindC1 c st) := by
   unfold bindC1; simp only; repeat' split
-  all_goals simp
+  all_goals simp [SameAll]
 
 theorem handleBind_eq (c : Conn) (st : XTree) : handleBind c st =
-    let c0 := delTimed c .missingBind
     match st.attr (b "type") with
     | some t =>
-      if t = b "error" then xmppDisconnect c0
+      if t = b "error" then xmppDisconnect (delTimed c .missingBind)
       else if t = b "result" then
-        let c1 := bindC1 c0 st
-        if c1.sessionRequired then sessionStart c1
-        else if c1.sm.support && !c1.smDisable then smEnable c1
-        else negotiationSuccess c1
-      else xmppDisconnect c0
-    | none => xmppDisconnect c0 := rfl
+        if (bindC1 (delTimed c .missingBind) st).sessionRequired then sessionStart (bindC1 (delTimed c .missingBind) st)
+        else if (bindC1 (delTimed c .missingBind) st).sm.support && !(bindC1 (delTimed c .missingBind) st).smDisable
+          then smEnable (bindC1 (delTimed c .missingBind) st)
+        else negotiationSuccess (bindC1 (delTimed c .missingBind) st)
+      else xmppDisconnect (delTimed c .missingBind)
+    | none => xmppDisconnect (delTimed c .missingBind) := rfl
 
-theorem H_handleBind {u : Option Nat} {c : Conn} (h : H u c) (s : Safe c) (st : XTree) :
-    H u (handleBind c st) := by
+theorem Inv_handleBind {u ut : Option Nat} {c : Conn} (h : Inv u ut c) (l : LateH c)
+    (hl : c.state ≠ .disconnected) (st : XTree) : Inv u ut (handleBind c st) := by
   rw [handleBind_eq]
-  have h0 : H u (delTimed c .missingBind) := H_delTimed h _
-  have h1 : H u (bindC1 (delTimed c .missingBind) st) := h.same (by simp [SameH])
-  have s1 : Safe (bindC1 (delTimed c .missingBind) st) := s.same (by simp) (by simp) (by simp) (by simp)
-  simp only
+  have h0 : Inv u ut (delTimed c .missingBind) := Inv_delTimed h _
+  have sa := bindC1_same (delTimed c .missingBind) st
+  have h1 : Inv u ut (bindC1 (delTimed c .missingBind) st) := h0.same sa
+  have l1 : LateH (bindC1 (delTimed c .missingBind) st) := l.same (by simp [sa.1]) (by simp [sa.2.1])
+  have s1 := l1.safe h1.g
   split
   · split
-    · exact H_xmppDisconnect h0
+    · exact Inv_xmppDisconnect h0
     · split
       · split
-        · exact H_sessionStart h1 s1
+        · exact Inv_sessionStart h1 l1.late s1
         · split
-          · exact H_smEnable h1 s1
-          · exact H_negotiationSuccess h1
-      · exact H_xmppDisconnect h0
-  · exact H_xmppDisconnect h0
+          · exact Inv_smEnable h1 l1.late s1 (by simpa [sa.2.2.2.2.2.1.1] using hl)
+          · exact Inv_negotiationSuccess h1
+      · exact Inv_xmppDisconnect h0
+  · exact Inv_xmppDisconnect h0
 
-theorem handleBind_sup (c : Conn) (st : XTree) : (handleBind c st).tlsSupport = c.tlsSupport := by
-  rw [handleBind_eq]; simp only; repeat' split
-  all_goals simp
+theorem handleBind_frame (c : Conn) (st : XTree) : same_ctx[c, handleBind c st] := by
+  rw [handleBind_eq]
+  have sa := bindC1_same (delTimed c .missingBind) st
+  obtain ⟨_, _, _, _, ⟨a1, _⟩, ⟨b1, b2, b3, _⟩, _, _, ⟨_, p2⟩, _, _, _⟩ := sa
+  have ts : (bindC1 (delTimed c .missingBind) st).tlsSupport = c.tlsSupport := by
+    unfold bindC1; simp only; repeat' split
+    all_goals simp
+  repeat' split
+  all_goals simp [a1, b1, b2, b3, p2, ts]
 
-theorem H_handleSession {u : Option Nat} {c : Conn} (h : H u c) (s : Safe c) (st : XTree) :
-    H u (handleSession c st) := by
+theorem Inv_handleSession {u ut : Option Nat} {c : Conn} (h : Inv u ut c) (l : LateH c)
+    (hl : c.state ≠ .disconnected) (st : XTree) : Inv u ut (handleSession c st) := by
   unfold handleSession
-  have h0 : H u (delTimed c .missingSession) := H_delTimed h _
-  have s0 : Safe (delTimed c .missingSession) := s.same (by simp) (by simp) (by simp) (by simp)
+  have h0 : Inv u ut (delTimed c .missingSession) := Inv_delTimed h _
+  have l0 : LateH (delTimed c .missingSession) := l.same (by simp) (by simp)
+  have s0 := l0.safe h0.g
   simp only
   split
   · split
-    · exact H_xmppDisconnect h0
+    · exact Inv_xmppDisconnect h0
     · split
       · split
-        · exact H_smEnable h0 s0
-        · exact H_negotiationSuccess h0
-      · exact H_xmppDisconnect h0
-  · exact H_xmppDisconnect h0
+        · exact Inv_smEnable h0 l0.late s0 (by simpa using hl)
+        · exact Inv_negotiationSuccess h0
+      · exact Inv_xmppDisconnect h0
+  · exact Inv_xmppDisconnect h0
 
-theorem handleSession_sup (c : Conn) (st : XTree) : (handleSession c st).tlsSupport = c.tlsSupport := by
+theorem handleSession_frame (c : Conn) (st : XTree) : same_ctx[c, handleSession c st] := by
   unfold handleSession; simp only; repeat' split
   all_goals simp
 
-theorem H_handleLegacy {u : Option Nat} {c : Conn} (h : H u c) (st : XTree) :
-    H u (handleLegacy c st) := by
+theorem Inv_handleLegacy {u ut : Option Nat} {c : Conn} (h : Inv u ut c) (st : XTree) :
+    Inv u ut (handleLegacy c st) := by
   unfold handleLegacy
-  have h0 : H u (delTimed c .missingLegacy) := H_delTimed h _
+  have h0 : Inv u ut (delTimed c .missingLegacy) := Inv_delTimed h _
   simp only
   split
-  · exact H_xmppDisconnect h0
+  · exact Inv_xmppDisconnect h0
   · split
-    · exact H_xmppDisconnect h0
+    · exact Inv_xmppDisconnect h0
     · split
-      · exact H_xmppDisconnect h0
+      · exact Inv_xmppDisconnect h0
       · split
-        · exact H_negotiationSuccess (h0.same (by simp [SameH]))
-        · exact H_xmppDisconnect h0
+        · exact Inv_negotiationSuccess (Inv_ghost_same h0 _ rfl)
+        · exact Inv_xmppDisconnect h0
 
-theorem handleLegacy_sup (c : Conn) (st : XTree) : (handleLegacy c st).tlsSupport = c.tlsSupport := by
+theorem handleLegacy_frame (c : Conn) (st : XTree) :
+    same_ctx[c, handleLegacy c st] ∧ (handleLegacy c st).handlers = c.handlers ∧
+    (handleLegacy c st).idHandlers = c.idHandlers := by
   unfold handleLegacy; simp only; repeat' split
   all_goals simp
 
-theorem H_handleError {u : Option Nat} {c : Conn} (h : H u c) (st : XTree) : H u (handleError c st) :=
-  h.same (by simp [SameH, handleError])
+theorem Inv_handleError {u ut : Option Nat} {c : Conn} (h : Inv u ut c) (st : XTree) : Inv u ut (handleError c st) :=
+  h.same (by simp [SameAll, handleError])
 
-theorem handleError_sup (c : Conn) (st : XTree) : (handleError c st).tlsSupport = c.tlsSupport := by
+theorem handleError_frame (c : Conn) (st : XTree) :
+    same_ctx[c, handleError c st] ∧ (handleError c st).handlers = c.handlers ∧
+    (handleError c st).idHandlers = c.idHandlers := by
   simp [handleError]
 
 end Strophe.Lemmas.ConnC02
